@@ -121,7 +121,9 @@ def check_primitive_pairs(repo, rep, pm):
                 if not isinstance(node, ast.If):
                     continue
                 moves = any((isinstance(x, (ast.Assign, ast.AugAssign)) and isinstance((x.targets[0] if isinstance(x, ast.Assign) else x.target), (ast.Attribute, ast.Subscript))) or (isinstance(x, ast.Call) and isinstance(x.func, ast.Attribute) and x.func.attr in ("append", "extend", "add_transfer_syntax", "insert")) for b in (node.body, node.orelse) for st in b for x in ast.walk(st))
-                if not moves:
+                # a branch that leaves the iteration / the method without raising skips the moves that follow it
+                skips = any(isinstance(b[-1], (ast.Continue, ast.Break, ast.Return)) for b in (node.body, node.orelse) if b)
+                if not moves and not skips:
                     continue
                 g_n += 1
                 t = node.test
